@@ -30,3 +30,12 @@ claim(
     "finite order-type (region) enumeration by abstract interpretation + syntax-tree rules on the two call sites",
     "DESIGN.md §5 C29",
 )
+
+claim(
+    "C17",
+    "other",
+    "Decides, for every update() body in the PhasorDetector family (base class and each override found through the class index), that each stored entry grows per step by exactly component*exp(+i*2*pi*f*step*dt)*scale*window[step] (subtracted for inverse detectors), with scale=2/sum(window) or the stride; the component selector table; the construction of window and window sum in place_on_grid; stride thinning of the on-list (exhaustive for lists up to length 7, strides 1..4); and the phasor Poynting post-processing Re(E x H*), direction sign, component selection and the 1/2 factor in continuous mode only. All by abstract interpretation on symbolic fields with every unspecified detector attribute symbolic, so an extraneous factor shows up. Floating-point accumulation error is not decided.",
+    TB + "; sa/ndarr.py broadcasting/indexing model of the jnp subset; state arrays adopt the shape of what is accumulated into them",
+    "abstract interpretation to rational normal forms over an n-d array domain; factor-quotient test per entry",
+    "DESIGN.md §5 C17",
+)
